@@ -4,9 +4,8 @@ C09 — environment overrides are equivalent to file values (internal/conf/env/e
 `loadEnv` mirrors `loadEnvInternal` kind by kind over a generic type tree `Ty` and value tree `V`:
 Unmarshaler first (incl. the "some key has this prefix ⇒ call with the empty string" rule and the nil receiver),
 the five scalar types (32-bit integer parse, bool spellings), maps of pointers (key = next `_`-free upper-case
-token, lower-cased; an existing nil entry is dereferenced ⇒ panic), structs (fields by upper-cased json tag,
-`json:"-"` skipped, a nil `*struct` ⇒ panic), string/uint/float lists by comma (empty value ⇒ empty list, through
-a nil pointer ⇒ panic), struct lists by index with the "continue while a key with the item prefix exists or the
+token, lower-cased; a missing or nil entry is created), structs (fields by upper-cased json tag,
+`json:"-"` skipped, a nil `*struct` ⇒ panic), string/uint/float lists by comma (empty value ⇒ empty list), struct lists by index with the "continue while a key with the item prefix exists or the
 value has more items" loop, anything else ⇒ "unsupported type" error.
 strconv.ParseFloat and the `UnmarshalEnv` methods of the real parameter types are oracles.
 -/
@@ -118,8 +117,6 @@ def unmCall (_hist pfx v : Bytes) : Option Bytes :=
 /-- strconv.ParseFloat oracle: text ↦ canonical rendering of the parsed value (absent = error) -/
 abbrev FloatOracle := List (Bytes × Bytes)
 
-def setNth (l : List V) (i : Nat) (v : V) : List V := l.set i v
-
 /-- distinct map keys addressed by the environment under `prefix_`: (`mapKey`, lower-cased) in first-occurrence
 order; keys that are empty or not upper-case are ignored by the code -/
 def mapKeys (e : Env) (pfx : Bytes) : List (Bytes × Bytes) :=
@@ -154,36 +151,100 @@ def zeroFields : List (Bytes × Ty) → List V
 
 end
 
-mutual
+/-- pointer / non-pointer dispatch at the top of `loadEnvInternal`: for a `*T` parameter the location is the
+pointer itself (nil or not), for a `T` parameter it is `&field` (never nil). `la` = the rest of the function. -/
+def dispatch (la : Bytes → Ty → Option V → Outcome V) (pfx : Bytes) (t : Ty) (cur : V) : Outcome V :=
+  match t with
+  | .ptr (.ptr _) => .err      -- no pointer-to-pointer parameters
+  | .ptr t' =>
+    match cur with
+    | .nil => la pfx t' none
+    | .some v => la pfx t' (some v)
+    | _ => .err
+  | _ =>
+    match la pfx t (some cur) with
+    | .ok (.some v) => .ok v
+    | .ok _ => .err
+    | .err => .err
+    | .panic => .panic
+    | .nondet => .nondet
 
-/-- `loadEnvInternal(env, prefix, prv)` where `prv` points to a location of type `t` holding `cur`.
-For `Ty.ptr t` the location is the pointer itself (`cur` = `nil` / `some v`). `fuel` bounds the nesting depth. -/
-def loadEnv (fl : FloatOracle) (e : Env) : Nat → Bytes → Ty → V → Outcome V
-  | 0, _, _, _ => .err
-  | fuel + 1, pfx, t, cur =>
-    match t with
-    | .ptr t' =>
-      match t' with
-      | .ptr _ => .err      -- no pointer-to-pointer parameters
-      | _ =>
-        match cur with
-        | .nil => loadAt fl e fuel pfx t' none
-        | .some v => loadAt fl e fuel pfx t' (some v)
-        | _ => .err
-    | _ =>
-      match loadAt fl e fuel pfx t (some cur) with
-      | .ok (.some v) => .ok v
-      | .ok _ => .err
+/-- the `reflect.Struct` case: fields in declaration order, `json:"-"` skipped, first failure wins.
+`child` = `loadEnvInternal` one level down. -/
+def loadFieldsWith (child : Bytes → Ty → V → Outcome V) (pfx : Bytes) : List (Bytes × Ty) → List V → List V → Outcome V
+  | [], _, acc => .ok (.struct acc.reverse)
+  | _ :: _, [], _ => .err
+  | (tag, t) :: fs, v :: vs, acc =>
+    if tag == b!"-" then loadFieldsWith child pfx fs vs (v :: acc)
+    else
+      match child (pfx ++ [95] ++ fieldKey tag) t v with
+      | .ok v' => loadFieldsWith child pfx fs vs (v' :: acc)
       | .err => .err
       | .panic => .panic
       | .nondet => .nondet
 
-/-- the body of `loadEnvInternal` for a non-pointer type `t` behind a pointer that is nil (`none`) or points
-to `cur`; returns the new pointer (`nil` / `some v`). -/
-def loadAt (fl : FloatOracle) (e : Env) : Nat → Bytes → Ty → Option V → Outcome V
+def loadStructWith (child : Bytes → Ty → V → Outcome V) (pfx : Bytes) (fs : List (Bytes × Ty)) (s : V) : Outcome V :=
+  match s with
+  | .struct vs => loadFieldsWith child pfx fs vs []
+  | _ => .err
+
+/-- the `reflect.Map` case, one distinct map key at a time (Go visits them in random order: an error and a
+panic for different keys ⇒ `nondet`). `fresh` = the map was nil and has not been created yet. -/
+def loadMapKeysWith (child : Bytes → Ty → V → Outcome V) (pfx : Bytes) (elem : Ty) :
+    List (Bytes × Bytes) → List (Bytes × V) → Bool → Bool → Bool → Outcome V
+  | [], es, fresh, sawErr, sawPanic =>
+    if sawErr && sawPanic then .nondet
+    else if sawPanic then .panic
+    else if sawErr then .err
+    else if fresh then .ok (.some .nilMap)
+    else .ok (.some (.map es))
+  | (tok, key) :: ks, es, _, sawErr, sawPanic =>
+    -- `if nv == zero || nv.IsNil() { nv = reflect.New(…); SetMapIndex }`: a missing entry and an entry that is a
+    -- nil pointer (`paths: {foo: null}` in the file) are both replaced by a fresh zero value
+    let cur : V := match es.lookup key with
+      | some (.some v) => v
+      | _ => zeroOf elem
+    match child (pfx ++ [95] ++ tok) elem cur with
+    | .ok v' =>
+      let es' := if (es.lookup key).isSome then es.map (fun kv => if kv.1 == key then (kv.1, .some v') else kv)
+                 else es ++ [(key, .some v')]
+      loadMapKeysWith child pfx elem ks es' false sawErr sawPanic
+    | .err =>
+      -- the entry has been created before the error
+      let es' := if (es.lookup key).isSome then es else es ++ [(key, .some cur)]
+      loadMapKeysWith child pfx elem ks es' false true sawPanic
+    | .panic => loadMapKeysWith child pfx elem ks es false sawErr true
+    | .nondet => .nondet
+
+/-- the struct-list loop `for i := 0; ; i++` (`steps` bounds the number of iterations) -/
+def loadItemsWith (child : Bytes → Ty → V → Outcome V) (e : Env) (pfx : Bytes) (fs : List (Bytes × Ty)) :
+    Nat → Nat → List V → Outcome (List V)
+  | 0, _, _ => .err
+  | steps + 1, i, items =>
+    let itemPfx := pfx ++ [95] ++ decNat i
+    if !hasKeyWithPrefix e itemPfx && items.length ≤ i then .ok items
+    else
+      let cur : V := if i < items.length then items.getD i .other else .struct (zeroFields fs)
+      match child itemPfx (.struct fs) cur with
+      | .ok v' =>
+        let items' := if i < items.length then items.set i v' else items ++ [v']
+        loadItemsWith child e pfx fs steps (i + 1) items'
+      | .err => .err
+      | .panic => .panic
+      | .nondet => .nondet
+
+/-- the body of `loadEnvInternal` for a non-pointer type `t` behind a pointer that is nil (`none`) or points to
+`cur`; returns the new pointer (`nil` / `some v`). `fuel` bounds the nesting depth of the type; `fx` selects the
+proposed fix of the prefix rule. -/
+def loadAt (fx : Bool) (fl : FloatOracle) (e : Env) : Nat → Bytes → Ty → Option V → Outcome V
   | 0, _, _, _ => .err
   | fuel + 1, pfx, t, cur? =>
+    let child := dispatch (loadAt fx fl e fuel)
     let unchanged : Outcome V := .ok (match cur? with | none => .nil | some v => .some v)
+    -- "some key has this prefix ⇒ call with the empty string"; the proposed fix (`fx`) restricts the rule to
+    -- children (`prefix_…`) of a value that exists
+    let prefixRule : Bool :=
+      if fx then cur?.isSome && hasKeyWithPrefix e (pfx ++ [95]) else hasKeyWithPrefix e pfx
     match t with
     -- Unmarshaler
     | .unm =>
@@ -192,14 +253,14 @@ def loadAt (fl : FloatOracle) (e : Env) : Nat → Bytes → Ty → Option V → 
         let hist := match cur? with | some (.unm h) => h | _ => []
         (match unmCall hist pfx ev with | some h => .ok (.some (.unm h)) | none => .err)
       | none =>
-        if hasKeyWithPrefix e pfx then
+        if prefixRule then
           match cur? with
           | none => .panic                      -- method called on a nil receiver, which it dereferences
           | some (.unm h) => (match unmCall h pfx [] with | some h' => .ok (.some (.unm h')) | none => .err)
           | some _ => .err
         else unchanged
     | .unmStruct fs =>
-      if (e.get pfx).isSome || hasKeyWithPrefix e pfx then
+      if (e.get pfx).isSome || prefixRule then
         let recv : Option V := match cur?, e.get pfx with
           | none, some _ => some (.opt .nil)     -- `prv.Set(reflect.New(rt))`
           | none, none => none
@@ -208,8 +269,8 @@ def loadAt (fl : FloatOracle) (e : Env) : Nat → Bytes → Ty → Option V → 
         | none => .panic                         -- nil receiver
         | some (.opt inner) =>
           -- `if p.Values == nil { p.Values = new }` ; `env.Load(prefix, p.Values)`
-          let innerV : V := match inner with | .nil => .struct (fs.map fun _ => .nil) | .some s => s | _ => .other
-          (match loadStruct fl e fuel pfx fs innerV with
+          let innerV : V := match inner with | .nil => .struct (zeroFields fs) | .some s => s | _ => .other
+          (match loadStructWith child pfx fs innerV with
            | .ok s => .ok (.some (.opt (.some s)))
            | .err => .err
            | .panic => .panic
@@ -240,12 +301,9 @@ def loadAt (fl : FloatOracle) (e : Env) : Nat → Bytes → Ty → Option V → 
     -- map[string]*elem
     | .map elem =>
       match cur? with
-      | none => .err
-      | some m =>
-        let entries0 : Option (List (Bytes × V)) := match m with | .map es => some es | .nilMap => some [] | _ => none
-        match entries0 with
-        | none => .err
-        | some es0 => loadMapKeys fl e fuel pfx elem (mapKeys e pfx) es0 (m matches .nilMap) false false
+      | some (.map es) => loadMapKeysWith child pfx elem (mapKeys e pfx) es false false false
+      | some .nilMap => loadMapKeysWith child pfx elem (mapKeys e pfx) [] true false false
+      | _ => .err
     -- struct
     | .struct fs =>
       match cur? with
@@ -253,7 +311,7 @@ def loadAt (fl : FloatOracle) (e : Env) : Nat → Bytes → Ty → Option V → 
         -- `prv.Elem().Field(i)` on a nil *struct, reached at the first field that is not `json:"-"`
         if fs.all (fun ft => ft.1 == b!"-") then unchanged else .panic
       | some s =>
-        (match loadStruct fl e fuel pfx fs s with
+        (match loadStructWith child pfx fs s with
          | .ok s' => .ok (.some s')
          | .err => .err
          | .panic => .panic
@@ -262,36 +320,36 @@ def loadAt (fl : FloatOracle) (e : Env) : Nat → Bytes → Ty → Option V → 
     | .strList =>
       match e.get pfx with
       | some ev =>
-        if ev.isEmpty then (match cur? with | none => .panic | some _ => .ok (.some (.list [])))
+        if ev.isEmpty then .ok (.some (.list []))
         else .ok (.some (.list ((splitComma ev).map .str)))
       | none => unchanged
     | .uintList =>
       match e.get pfx with
       | some ev =>
-        if ev.isEmpty then (match cur? with | none => .panic | some _ => .ok (.some (.list [])))
+        if ev.isEmpty then .ok (.some (.list []))
         else (match (splitComma ev).mapM parseUint32 with | some l => .ok (.some (.list (l.map .uint))) | none => .err)
       | none => unchanged
     | .floatList =>
       match e.get pfx with
       | some ev =>
-        if ev.isEmpty then (match cur? with | none => .panic | some _ => .ok (.some (.list [])))
+        if ev.isEmpty then .ok (.some (.list []))
         else (match (splitComma ev).mapM (fun x => fl.lookup x) with | some l => .ok (.some (.list (l.map .float))) | none => .err)
       | none => unchanged
     | .structList fs =>
-      if e.get pfx == some [] then (match cur? with | none => .panic | some _ => .ok (.some (.list [])))
+      if e.get pfx == some [] then .ok (.some (.list []))
       else
-        let items? : Option (Option (List V)) := match cur? with
-          | none => some none
-          | some (.list l) => some (some l)
-          | some .nilList => some (some [])
+        let items? : Option (List V) := match cur? with
+          | none => some []
+          | some (.list l) => some l
+          | some .nilList => some []
           | some _ => none
         (match items? with
          | none => .err
          | some items =>
-           match loadItems fl e fuel pfx fs 0 (e.length + (items.getD []).length + 1) (items.getD []) with
+           match loadItemsWith child e pfx fs (e.length + items.length + 1) 0 items with
            | .ok l =>
              -- the pointer / slice is only touched when an element was appended or rewritten
-             if l.isEmpty && (items.getD []).isEmpty then unchanged else .ok (.some (.list l))
+             if l.isEmpty && items.isEmpty then unchanged else .ok (.some (.list l))
            | .err => .err
            | .panic => .panic
            | .nondet => .nondet)
@@ -299,75 +357,9 @@ def loadAt (fl : FloatOracle) (e : Env) : Nat → Bytes → Ty → Option V → 
     | .other => .err
     | .ptr _ => .err
 
-/-- the `reflect.Struct` case: fields in declaration order, first error wins -/
-def loadStruct (fl : FloatOracle) (e : Env) : Nat → Bytes → List (Bytes × Ty) → V → Outcome V
-  | 0, _, _, _ => .err
-  | fuel + 1, pfx, fs, s =>
-    match s with
-    | .struct vs => loadFields fl e fuel pfx fs vs []
-    | _ => .err
-
-def loadFields (fl : FloatOracle) (e : Env) : Nat → Bytes → List (Bytes × Ty) → List V → List V → Outcome V
-  | 0, _, _, _, _ => .err
-  | _ + 1, _, [], _, acc => .ok (.struct acc.reverse)
-  | _ + 1, _, _ :: _, [], _ => .err
-  | fuel + 1, pfx, (tag, t) :: fs, v :: vs, acc =>
-    if tag == b!"-" then loadFields fl e fuel pfx fs vs (v :: acc)
-    else
-      match loadEnv fl e fuel (pfx ++ [95] ++ fieldKey tag) t v with
-      | .ok v' => loadFields fl e fuel pfx fs vs (v' :: acc)
-      | .err => .err
-      | .panic => .panic
-      | .nondet => .nondet
-
-/-- the `reflect.Map` case, one distinct map key at a time (Go visits them in random order: an error and a
-panic for different keys ⇒ `nondet`). `fresh` = the map was nil and has not been created yet. -/
-def loadMapKeys (fl : FloatOracle) (e : Env) : Nat → Bytes → Ty → List (Bytes × Bytes) → List (Bytes × V) → Bool → Bool → Bool → Outcome V
-  | 0, _, _, _, _, _, _, _ => .err
-  | _ + 1, _, _, [], es, fresh, sawErr, sawPanic =>
-    if sawErr && sawPanic then .nondet
-    else if sawPanic then .panic
-    else if sawErr then .err
-    else if fresh then .ok (.some .nilMap)
-    else .ok (.some (.map es))
-  | fuel + 1, pfx, elem, (tok, key) :: ks, es, fresh, sawErr, sawPanic =>
-    -- existing entry? (a nil pointer entry is dereferenced: `nv.Elem()` of a nil pointer is the zero Value)
-    match es.lookup key with
-    | some .nil => loadMapKeys fl e fuel pfx elem ks es false sawErr true
-    | existing =>
-      let cur : V := match existing with
-        | some (.some v) => v
-        | _ => zeroOf elem
-      match loadEnv fl e fuel (pfx ++ [95] ++ tok) elem cur with
-      | .ok v' =>
-        let es' := if (es.lookup key).isSome then es.map (fun kv => if kv.1 == key then (kv.1, .some v') else kv)
-                   else es ++ [(key, .some v')]
-        loadMapKeys fl e fuel pfx elem ks es' false sawErr sawPanic
-      | .err =>
-        -- the entry has been created before the error
-        let es' := if (es.lookup key).isSome then es else es ++ [(key, .some cur)]
-        loadMapKeys fl e fuel pfx elem ks es' false true sawPanic
-      | .panic => loadMapKeys fl e fuel pfx elem ks es false sawErr true
-      | .nondet => .nondet
-
-/-- the struct-list loop `for i := 0; ; i++` -/
-def loadItems (fl : FloatOracle) (e : Env) : Nat → Bytes → List (Bytes × Ty) → Nat → Nat → List V → Outcome (List V)
-  | 0, _, _, _, _, _ => .err
-  | _ + 1, _, _, _, 0, _ => .err
-  | fuel + 1, pfx, fs, i, steps + 1, items =>
-    let itemPfx := pfx ++ [95] ++ decNat i
-    if !hasKeyWithPrefix e itemPfx && items.length ≤ i then .ok items
-    else
-      let cur : V := if i < items.length then items.getD i .other else .struct (fs.map fun ft => zeroOf ft.2)
-      match loadEnv fl e fuel itemPfx (.struct fs) cur with
-      | .ok v' =>
-        let items' := if i < items.length then items.set i v' else items ++ [v']
-        loadItems fl e fuel pfx fs (i + 1) steps items'
-      | .err => .err
-      | .panic => .panic
-      | .nondet => .nondet
-
-end
+/-- `loadEnvInternal(env, prefix, prv)` where `prv` points to a location of type `t` holding `cur` -/
+def loadEnv (fx : Bool) (fl : FloatOracle) (e : Env) (fuel : Nat) (pfx : Bytes) (t : Ty) (cur : V) : Outcome V :=
+  dispatch (loadAt fx fl e fuel) pfx t cur
 
 /-! ### canonical text of a value (shared with the Go harness) -/
 
